@@ -48,7 +48,8 @@ CHECKS = {
         level=dict(
             category="exploration",
             text="Seeded search over interleavings of 1-4 simulated processes sharing one simulated cache directory, "
-                 "with process kills at tape-chosen scheduling points and byte offsets, followed by a fault-free "
+                 "with process kills at tape-chosen scheduling points and byte offsets and transient disk-full errors, "
+                 "followed by a fault-free "
                  "later run; plus a sub-part that enumerates EVERY kill point (scheduling step x byte offset) of a "
                  "single writer for a stated list of (n_approx, buffer size) configurations. Exploration is the "
                  "right label for the whole: interleavings of several processes are sampled, not enumerated; the "
@@ -59,7 +60,8 @@ CHECKS = {
              "user-space buffers are lost, no power-loss reordering); CPython's io stack and numpy's text I/O run "
              "for real on top of it. Table arithmetic runs with NUMBA_DISABLE_JIT=1.",
         technique="deterministic simulation: baton-passing simulated processes over an in-memory POSIX file system, "
-                  "seeded schedules + process-kill/torn-write injection, crash-point enumeration, reference-table oracle",
+                  "seeded schedules + process-kill/torn-write/disk-full injection, crash-point enumeration, "
+                  "reference-table oracle",
     ),
     "C21": dict(
         engine="ep",
